@@ -1,12 +1,11 @@
 (* ProofsWf.v — the well-formedness that the termination theorem assumes is an invariant of the registry:
    it holds after every history whose registrations never give one result-object field both a name and a
-   group, nor one dependency both a name and a group. *)
+   group. *)
 From Godi Require Import Base Model Check ProofsRegistry ProofsTerm.
 
-Definition dep_ok (d : dep) : bool := (d_group d =? 0) || (d_name d =? 0).
 Definition field_ok (f : rfield) : bool := (f_name f =? 0) || (f_group f =? 0).
 Definition reg_ok (r : reg) : bool :=
-  forallb dep_ok (reg_deps r) && match r_form r with FResult _ _ fs _ => forallb field_ok fs | _ => true end.
+  match r_form r with FResult _ _ fs _ => forallb field_ok fs | _ => true end.
 
 Definition member_bound (c : coll) (d : desc) : Prop :=
   in_services d = false -> exists i, ds_key d = KIdx i /\ i <= length (group_members c (ds_ty d) (ds_grp d)).
@@ -119,7 +118,7 @@ Proof.
   - apply Forall_forall. intros s Hs. apply in_map_iff in Hs. destruct Hs as [[i f] [<- Hin]]. cbn [step_pre].
     apply in_combine_r in Hin.
     unfold pre_ok, in_services; cbn [ds_key ds_grp ds_reg]. repeat split; [apply name_key_services| |exact Hok].
-    intros Hk. apply name_key_none in Hk. unfold reg_ok in Hok. rewrite Ef in Hok. apply andb_prop in Hok. destruct Hok as [_ Hfs].
+    intros Hk. apply name_key_none in Hk. unfold reg_ok in Hok. rewrite Ef in Hok. rename Hok into Hfs.
     rewrite forallb_forall in Hfs. specialize (Hfs f Hin). unfold field_ok in Hfs. apply orb_prop in Hfs.
     destruct Hfs as [H|H]; apply Nat.eqb_eq in H; congruence.
 Qed.
@@ -235,12 +234,7 @@ Proof.
 Qed.
 
 Lemma J_wf c : J c -> wf_coll c.
-Proof.
-  intros (Hnd & Ha & Hb & Hc & _). repeat split; try assumption.
-  intros d dp Hd Hdp Hg. specialize (Hc d Hd). unfold reg_ok in Hc. apply andb_prop in Hc. destruct Hc as [Hds _].
-  rewrite forallb_forall in Hds. specialize (Hds dp Hdp). unfold dep_ok in Hds. apply orb_prop in Hds.
-  destruct Hds as [H|H]; apply Nat.eqb_eq in H; congruence.
-Qed.
+Proof. intros (Hnd & Ha & Hb & _ & _). repeat split; assumption. Qed.
 
 (* the registry reached by any history of well-formed calls is well-formed *)
 Theorem wf_after_every_history ops : forallb op_ok ops = true -> wf_coll (w_coll (fst (run_from init_world ops))).
